@@ -211,7 +211,7 @@ class PyEncoder:
                 self.trusted = False  # the decoder leaves shifted samples in its history
             buf = [x - co for x in h]
             for v in vs:
-                p = (self.lpcqoffset + sum(q * buf[j] for j, q in enumerate(qs))) >> 5
+                p = (self.lpcqoffset + sum(q * (buf[j] if j < len(buf) else 0) for j, q in enumerate(qs))) >> 5
                 w.var(resn, (v - co) - p)
                 buf.insert(0, v - co)
         self.hist[chan] = (vs[::-1] + h)[: self.nwrap]
@@ -237,7 +237,7 @@ class PyEncoder:
             n = g[-1][2]
             for t in range(n):
                 for (_, s, _) in g:
-                    out.append(s[t])
+                    out.append(s[t] if t < len(s) else 0)
             i += nchan
         return out
 
@@ -274,7 +274,14 @@ def cast_expected(vals, dtkey, ftype, pcm):
     return out
 
 
+class Hang(BaseException):
+    """the implementation did not return (watchdog)"""
+
+
 class Impl:
+    limit = 20
+    hangs = 0
+
     def __init__(self):
         C.ensure_impl_path()
         import importlib
@@ -284,21 +291,42 @@ class Impl:
         self.np = np
         self.util = importlib.import_module("pydrobert.speech.util")
 
-    def decode(self, payload, nchan, nsamp, ftype, dtkey):
-        """-> ('ok', flat list) | ('ioerror', msg) | ('other', ExcName: msg)"""
+    def guarded(self, fn):
+        """run fn() under a watchdog -> ('ok', flat list) | ('ioerror', msg) | ('other', 'ExcName: msg')"""
+        import signal
+
         np = self.np
-        dt = DT[dtkey][1]
-        f = io.BytesIO(sphere_wrap(payload, nchan, nsamp, ftype))
+
+        def on_alarm(signum, frame):
+            raise Hang("no answer within %d s" % self.limit)
+
+        old = signal.signal(signal.SIGALRM, on_alarm)
+        signal.setitimer(signal.ITIMER_REAL, self.limit)
         try:
             with warnings.catch_warnings():
                 warnings.simplefilter("ignore")
                 with np.errstate(all="ignore"):
-                    a = self.util.read_signal(f, dtype=None if dt is None else np.dtype(dt), force_as="sph")
+                    a = fn()
             return ("ok", [int(x) for x in np.asarray(a).reshape(-1).tolist()])
+        except Hang as e:
+            self.hangs += 1
+            if self.hangs >= 3:
+                self.limit = 2  # do not spend the whole run waiting
+            return ("other", "Hang: %s" % e)
         except IOError as e:
             return ("ioerror", str(e)[:80])
         except Exception as e:  # noqa: BLE001 - the class is the observation
             return ("other", "%s: %s" % (type(e).__name__, str(e)[:80]))
+        finally:
+            signal.setitimer(signal.ITIMER_REAL, 0)
+            signal.signal(signal.SIGALRM, old)
+
+    def decode(self, payload, nchan, nsamp, ftype, dtkey):
+        np = self.np
+        dt = DT[dtkey][1]
+        f = io.BytesIO(sphere_wrap(payload, nchan, nsamp, ftype))
+        return self.guarded(lambda: self.util.read_signal(
+            f, dtype=None if dt is None else np.dtype(dt), force_as="sph"))
 
 
 # --------------------------------------------------------------------------
@@ -596,16 +624,17 @@ def gen_stream(ctx, r):
             enc.item(it)
     except (AssertionError, ValueError):
         enc.trusted = False
+    trusted, expect_io = enc.trusted, False
     if kind == "unknown":
         enc.item(("raw", r.choice([9, 9, 10, 12, 17, 40, 200])))
+        expect_io = trusted
     version_byte = None
-    payload = enc.finish(quit=(kind not in ("noquit", "unknown")), rng=r)
-    expected = enc.expected()
-    trusted, expect_io = enc.trusted, False
     if kind == "noquit":
-        expect_io = True
-    if kind == "unknown":
-        expect_io = enc.trusted_before_raw if hasattr(enc, "trusted_before_raw") else False
+        payload = enc.finish(quit=False, pad=0)  # zeros never end the unary part: the reader runs off the end
+        expect_io = trusted
+    else:
+        payload = enc.finish(quit=(kind != "unknown"), rng=r)
+    expected = enc.expected()
     if kind == "trunc" and len(payload) > 5:
         # the QUIT command ends in the last word (at most 31 padding bits follow)
         cut = r.choice([4, 5, 6, 8, 9, r.randint(5, len(payload) - 1), r.randint(5, len(payload) - 1),
@@ -713,3 +742,198 @@ def corr_decoder(ctx, impl, n_cases, extra_streams=()):
 
 
 ORACLE_TYPES = (TYPE_S16HL, TYPE_S16LH, TYPE_AU1, TYPE_AU2, TYPE_ULAW)
+
+
+# --------------------------------------------------------------------------
+# reference vectors
+
+
+def ref_vectors():
+    d = os.path.join(C.REPO, "tests", "audio")
+    if not os.path.isdir(d):
+        d = "/repo/tests/audio"
+    out = []
+    for name, nchan, ftype in (("123_1pcbe", 1, TYPE_S16HL), ("123_1pcle", 1, TYPE_S16LH), ("123_1ulaw", 1, TYPE_AU2),
+                               ("123_2pcbe", 2, TYPE_S16HL), ("123_2pcle", 2, TYPE_S16LH), ("123_2ulaw", 2, TYPE_AU2)):
+        sph, wav = os.path.join(d, name + "_shn.sph"), os.path.join(d, name + ".wav")
+        if os.path.exists(sph) and os.path.exists(wav):
+            out.append((name, nchan, ftype, sph, wav))
+    return out
+
+
+def read_wav(path):
+    import wave
+
+    import numpy as np
+
+    with wave.open(path, "rb") as w:
+        assert w.getsampwidth() == 2
+        raw = w.readframes(w.getnframes())
+    return [int(x) for x in np.frombuffer(raw, dtype="<i2").tolist()]
+
+
+def check_vectors(ctx, impl):
+    """implementation against the WAVs (the property's last clause)"""
+    np = impl.np
+    streams = []
+    for name, nchan, ftype, sph, wav in ref_vectors():
+        want = read_wav(wav)
+        ctx.count("vectors:" + name)
+        got = impl.guarded(lambda: impl.util.read_signal(open(sph, "rb"), force_as="sph"))
+        ok = got == ("ok", want)
+        what = "different samples" if got[0] == "ok" else "%s: %s" % (got[0], got[1])
+        ctx.case(dict(kind="vector", name=name, samples=len(want)))
+        if not ok:
+            ctx.fail("reference vector %s does not decode to its WAV (%s)" % (name, what),
+                     dict(kind="vector", file=sph, wav=wav, detail=what), kind="impl")
+        data = open(sph, "rb").read()
+        hdrsize = int(data.split(b"\n")[1])
+        streams.append((data[hdrsize:], dict(kind="refvec:" + name, case=dict(
+            version=2, ftype=ftype, nchan=nchan, bs0=256, maxnlpc=0, nmean=4, skip=[], script=[], chans=[]),
+            trusted=False, expect_io=False, expected=[], dt="NONE", nsamp=len(want) // nchan)))
+    return streams
+
+
+# --------------------------------------------------------------------------
+# search: the property itself on the implementation
+
+
+def search(ctx, impl, n_cases):
+    r = ctx.rng
+    _, pcm = ref_tables()
+    bad = []
+    for i in range(n_cases):
+        c = gen_case(r, ctx.thorough)
+        if c["ftype"] not in ORACLE_TYPES:
+            continue
+        enc = PyEncoder(c["version"], c["ftype"], c["nchan"], c["bs0"], c["maxnlpc"], c["nmean"], c["skip"],
+                        r.choice([0, 0, 1, 5]))
+        for it in c["script"]:
+            enc.item(it)
+        if not enc.trusted:
+            continue
+        dtkey = r.choice(["NONE", "I32"] + (["U8"] if c["ftype"] in (TYPE_AU1, TYPE_AU2) else []))
+        open_bits = list(enc.w.b)
+        payload = enc.finish(rng=r)
+        want = cast_expected(interleave(c["chans"]), dtkey, c["ftype"], pcm)
+        nsamp = len(c["chans"][0]) + r.choice([0, 0, 4])
+        got = impl.decode(payload, c["nchan"], nsamp, c["ftype"], dtkey)
+        count_case(ctx, c, "S")
+        ctx.case(dict(kind="S", dt=dtkey, bytes=len(payload), sha=hashlib.sha1(payload).hexdigest()[:12], **summarize(c)),
+                 nontrivial=bool(want))
+        rep = dict(kind="S", dt=dtkey, params=summarize(c), payload_hex=payload.hex(), nchan=c["nchan"], nsamp=nsamp,
+                   ftype=c["ftype"], expected=want[:4000])
+        if got != ("ok", want):
+            bad.append(("roundtrip", dict(rep, got=got if got[0] != "ok" else ("ok", got[1][:4000]))))
+            continue
+        # truncations: every cut that removes a bit of the stream must raise IOError
+        cuts = sorted(set([4, 5, 8, 9, len(payload) - 1, len(payload) - 4] + [r.randint(4, len(payload) - 1) for _ in range(3)]))
+        for cut in cuts:
+            if 4 <= cut < len(payload):
+                g2 = impl.decode(payload[:cut], c["nchan"], nsamp, c["ftype"], dtkey)
+                ctx.count("S:truncations")
+                if g2[0] != "ioerror":
+                    bad.append(("early-eof", dict(rep, cut=cut, payload_hex=payload[:cut].hex(),
+                                                  got=g2 if g2[0] != "ok" else ("ok", g2[1][:200]))))
+        # unknown command after the open stream
+        w2 = BitWriter()
+        w2.b = list(open_bits)
+        w2.uvar(2, r.choice([9, 10, 11, 15, 33, 255]))
+        p2 = payload[:5] + w2.tobytes(rng=r)
+        g3 = impl.decode(p2, c["nchan"], nsamp, c["ftype"], dtkey)
+        ctx.count("S:unknown-commands")
+        if g3[0] != "ioerror":
+            bad.append(("unknown-command", dict(rep, payload_hex=p2.hex(), got=g3 if g3[0] != "ok" else ("ok", g3[1][:200]))))
+        # unsupported version byte
+        vb = r.choice([0, 3, 5, 127, 128, 200, 255])
+        p3 = payload[:4] + bytes([vb]) + payload[5:]
+        g4 = impl.decode(p3, c["nchan"], nsamp, c["ftype"], dtkey)
+        ctx.count("S:bad-versions")
+        if g4[0] != "ioerror":
+            bad.append(("bad-version", dict(rep, payload_hex=p3.hex(), version_byte=vb, got=g4 if g4[0] != "ok" else ("ok", g4[1][:200]))))
+    return bad
+
+
+def regenerate(ctx):
+    import shorten as gen_shorten
+    from pyexpr import Unsupported
+
+    try:
+        gen_shorten.main(os.path.join(C.SRC, "_sphere.py"), os.path.join(C.COQ, "gen", "Shorten.v"))
+        return True
+    except (Unsupported, SyntaxError, OSError, ValueError) as e:
+        ctx.fail("translator gen/shorten.py no longer recognises _sphere.py: %s" % e,
+                 dict(correspondence="gen/shorten.py -> coq/gen/Shorten.v", error=str(e)), kind="tie", no_input=True)
+        return False
+
+
+def run(ctx):
+    impl = Impl()
+    ok_gen = regenerate(ctx)
+    pr = C.proof_step(ctx) if ok_gen else None
+    ctx.cov["trusted_base"].append("translator /verif/gen/shorten.py (Python ast -> Z constants, sets, tables)")
+    ctx.cov["trusted_base"].append("harness/c13.py: independent Python encoder, SPHERE header writer, exception -> class map")
+    model_ok = False
+    if ok_gen:
+        model_ok, out = C.coq_make(["gen/Shorten.v", "C13/Model.v"])
+        if not model_ok:
+            ctx.fail("the model no longer compiles against the regenerated constants",
+                     dict(correspondence="coq/C13/Model.v over coq/gen/Shorten.v", log_tail=out[-1500:]), kind="tie", no_input=True)
+    # the pinned reference tables against the source's
+    out_ref, pcm_ref = ref_tables()
+    try:
+        sph = __import__("importlib").import_module("pydrobert.speech._sphere")
+        if sph.ULAW_OUTWARD.tolist() != out_ref or [int(x) for x in sph.ULAW2PCM.tolist()] != pcm_ref:
+            ctx.fail("ULAW_OUTWARD / ULAW2PCM differ from the sph2pipe reference tables",
+                     dict(correspondence="pinned reference tables vs _sphere.py"), kind="tie", no_input=True)
+    except Exception as e:  # noqa: BLE001
+        ctx.fail("cannot import the implementation: %s" % e, dict(error=str(e)), kind="tie", no_input=True)
+    streams = check_vectors(ctx, impl)
+    nbad = 0
+    if model_ok:
+        nbad += corr_encoder(ctx, impl, ctx.scale(240, 3000))
+        nvec = len(streams) if ctx.thorough else 2
+        pick = [s for s in streams if s[1]["kind"] in ("refvec:123_1pcbe", "refvec:123_1ulaw")] if not ctx.thorough else streams
+        nbad += corr_decoder(ctx, impl, ctx.scale(500, 8000), pick[:nvec])
+    bad = search(ctx, impl, ctx.scale(400, 12000))
+    for name, rep in bad[:10]:
+        ctx.fail("property violated on the implementation (%s)" % name, rep, kind="impl")
+    if ((pr is not None and not pr["ok"]) or not ok_gen) and not bad and not nbad:
+        ctx.log("search found no failing input on the implementation")
+    ctx.cov["rule"] = (
+        "A: stream encoded inside Coq from random (version, type, channels, block size, LPC order, mean length, "
+        "script of DIFF0-3/QLPC/ZERO/BLOCKSIZE/BITSHIFT items, residual widths, padding) and decoded by the implementation; "
+        "B: stream of the independent Python encoder (valid, exotic, truncated, bit-flipped, unknown command, bad version, "
+        "no QUIT, oversized block, over-long LPC) decoded by model and implementation, non-trivial when the model gives "
+        "data or IOError (not 'outside the modelled domain') on more than a header; S: valid streams, their truncations, "
+        "unknown commands and bad versions on the implementation alone; distinct = distinct (parameters, script summary, "
+        "stream hash)"
+    )
+    ctx.assumptions += [
+        "file_.read(n) returns n bytes unless the file ends (the word-level refill of word_get is covered by streams "
+        "longer than 16 KiB: the reference vectors)",
+        "NumPy int32 wrap-around / OverflowError is not modelled: the model answers 'outside the modelled domain' there",
+        "the SPHERE header parser is C12's; headers here are well-formed and declare embedded-shorten",
+    ]
+    return C.finish(ctx, "proof")
+
+
+def replay(ctx, rp):
+    """re-run a recorded case on the implementation (and print the model's answer)"""
+    impl = Impl()
+    f = rp.get("failure", {}).get("replay", {})
+    if "payload_hex" not in f:
+        import json
+
+        print(json.dumps(rp, indent=1)[:4000])
+        return 0
+    payload = bytes.fromhex(f["payload_hex"])
+    got = impl.decode(payload, f.get("nchan", 1), f.get("nsamp", 1), f.get("ftype", TYPE_S16LH), f.get("dt", "NONE"))
+    print("implementation:", got[0], (got[1][:40] if got[0] == "ok" else got[1]))
+    if "expected" in f:
+        print("expected      :", f["expected"][:40])
+    ans, log = C.coq_eval(ctx, "replay", "Eval vm_compute in (shn_decode %s %s).\n" % (
+        DT[f.get("dt", "NONE")][0], C.zlist(list(payload))), REQ)
+    print("model         :", (ans[0][:400] if ans else log[-400:]))
+    bad = ("expected" in f and got != ("ok", f["expected"])) or (f.get("kind") != "S" and False)
+    return 1 if bad else 0
